@@ -577,16 +577,25 @@ def dfsRun (R : Rules) (G : Graph) : Nat → Dfs → Dfs
 def dfsFuel (G : Graph) : Nat :=
   (G.tensors.map fun t => t.consumers.length + t.ops.length).sum + G.outputs.length + 1
 
-/-- the passes in the order `list(reversed(reverse_pass_list))` -/
-def packDfs (R : Rules) (G : Graph) : Except String (List Pass) := do
-  let d := dfsRun R G (dfsFuel G) { stack := G.outputs.map Task.vt }
-  if let some e := d.err then throw e
-  if d.startup.isEmpty then pure d.passes
-  else
-    let sp ← buildStartupPass R G d.startup
-    let d := dfsRun R G (dfsFuel G) { d with passes := sp :: d.passes, stack := expandRefs sp.inputRefs }
-    if let some e := d.err then throw e
-    pure d.passes
+/-- the first traversal: from the graph outputs -/
+def dfsMain (R : Rules) (G : Graph) : Dfs := dfsRun R G (dfsFuel G) { stack := G.outputs.map Task.vt }
+
+/-- the passes in the order `list(reversed(reverse_pass_list))`: the traversal from the outputs, then the start-up pass (whose
+    inputs, if it had any, are visited like those of any pass) -/
+def packDfs (R : Rules) (G : Graph) : Except String (List Pass) :=
+  let d := dfsMain R G
+  match d.err with
+  | some e => .error e
+  | none =>
+    if d.startup.isEmpty then .ok d.passes
+    else
+      match buildStartupPass R G d.startup with
+      | .error e => .error e
+      | .ok sp =>
+        let d2 := dfsRun R G (dfsFuel G) { d with passes := sp :: d.passes, stack := expandRefs sp.inputRefs }
+        match d2.err with
+        | some e => .error e
+        | none => .ok d2.passes
 
 /-! ## ordering of the pass list -/
 
